@@ -147,6 +147,9 @@ func checkPMT(c *mon.Ctx, tag string, m psi.PMT, p *ref.PMT, w func(string) wit)
 	return ok
 }
 
+// reusedReader serves the streams of many cases in turn, the way a demultiplexer keeps one reader per input.
+var reusedReader = bytes.NewReader(nil)
+
 func run(c *mon.Ctx) {
 	c.Rule("PMT sections generated from ground truth (0..50 streams, 0..3 descriptors each incl. empty and long bodies, program descriptors, all versions) x carriers (pointer_field 0..183 with 0xFF filler, 0..2 other complete sections before, trailing 0xFF) x packetisations (random splits 1..184, adaptation-field stuffing or 0xFF padding, running continuity counter, interleaved packets of other PIDs with and without PUSI); every prefix of the payload is given to the completion predicate. distinct non-trivial = distinct (pointer class, other sections before, packet count class, split coincides with a section boundary, descriptor shape class, trailing stuffing)")
 	c.Assume("predicate rule: required false when the prefix ends inside the pointer filler, exactly at the start of the first section or strictly inside a section (including its 3-byte header); required true from the end of the last section on; unconstrained exactly at the boundary between two sections. ReadPMT is exercised with at least one elementary stream. Other sections before the PMT section use table ids other than 0x02 and 0xFF")
@@ -155,6 +158,7 @@ func run(c *mon.Ctx) {
 	c.Floor("readpmt.split_on_section_boundary", 20)
 	c.Floor("readpmt.first_packet_holds_only_pointer_filler", 20)
 	c.Floor("readpmt.long_run_of_other_pids_inside_the_unit", 20)
+	c.Floor("readpmt.reader_object_of_the_previous_stream_reset_and_reused", 500)
 	c.Floor("readpmt.earlier_unit_on_pmt_pid/other-section-unit", 500)
 	c.Floor("readpmt.earlier_unit_on_pmt_pid/truncated-larger-pmt", 500)
 	c.Floor("decode_again_after_removal", 2000)
@@ -403,6 +407,46 @@ func run(c *mon.Ctx) {
 			c.Fail(sig, fmt.Sprintf("ReadPMT failed on a well-formed stream: %v (%s, %d packets, chunk sizes %v)", err, k.shape(&p), len(pkts), sizes), ws(fmt.Sprint(err)))
 		} else {
 			checkPMT(c, "ReadPMT", m2, &p, ws)
+		}
+		// ---- one reader object serves one stream after the other (Reset): this stream, with further packets
+		// behind the PMT that the call has no reason to consume, is read through the object that served the
+		// previous case's stream
+		if r.Chance(3) {
+			tail := append([]byte{}, in...)
+			for k := r.Intn(70); k > 0; k-- {
+				o := ref.PaddedPacket((pid+1+r.Intn(60))&0x1fff, k&15, false, nil)
+				tail = append(tail, o[:]...)
+			}
+			// (the stream it serves first: another PMT, and more packets behind it)
+			{
+				q := ref.GenPMT(r, 1+r.Intn(3))
+				qk, _ := ref.Packetise(pid, 0, append([]byte{0}, q.Section()...), ref.RandChunks(r, 3), r.Bool())
+				var other []byte
+				for _, k2 := range qk {
+					other = append(other, k2[:]...)
+				}
+				for k := 1 + r.Intn(40); k > 0; k-- {
+					o := ref.PaddedPacket((pid+1+r.Intn(60))&0x1fff, k&15, false, nil)
+					other = append(other, o[:]...)
+				}
+				if r.Bool() {
+					// (a PMT is repeated several times a second: the next repetition is among them)
+					for _, k2 := range qk {
+						other = append(other, k2[:]...)
+					}
+					o := ref.PaddedPacket((pid+3)&0x1fff, 0, false, nil)
+					other = append(other, o[:]...)
+				}
+				reusedReader.Reset(other)
+				psi.ReadPMT(reusedReader, pid)
+			}
+			reusedReader.Reset(tail)
+			c.Count("readpmt.reader_object_of_the_previous_stream_reset_and_reused")
+			if m3, err := psi.ReadPMT(reusedReader, pid); err != nil || m3 == nil {
+				c.Fail("ReadPMT-through-a-reused-reader-object:error", fmt.Sprintf("ReadPMT failed on a well-formed stream read through a *bytes.Reader that had served another stream before (Reset): %v", err), ws(fmt.Sprint(err)))
+			} else {
+				checkPMT(c, "ReadPMT-through-a-reused-reader-object", m3, &p, ws)
+			}
 		}
 		// ---- objects decoded earlier keep reporting their own table after other PMTs were decoded
 		{
